@@ -101,11 +101,18 @@ def rule_config_forwarded(ctx: Ctx, rep: Report, rule: str, cls_qual: str, field
     ci = ctx.cls(cls_qual)
     n = 0
     for mname, fi in sorted(ci.methods.items()):
+        if not fi.params() or fi.params()[0] != "self":
+            continue  # an alternative constructor has no object yet: it forwards its own arguments
         for c in own_nodes(fi.node):
             if not isinstance(c, ast.Call):
                 continue
             q = ctx.resolve_call(fi, c)
             callee = ctx.prog.functions.get(q or "")
+            if callee is None and isinstance(c.func, ast.Attribute):
+                # a method on a receiver the resolver cannot type: judged when every definition of that name agrees on the parameter
+                cands = [f for f in ctx.prog.functions.values() if f.cls is not None and f.qualname.rsplit(".", 1)[1] == c.func.attr]
+                if cands and all(any(p in f.params() for p in fields.values()) for f in cands) and len({tuple(f.params()) for f in cands}) == 1:
+                    callee = cands[0]
             if callee is None or callee.cls is ci:
                 continue
             ps = callee.params()
